@@ -407,7 +407,91 @@ def oracle_dump_failure(case):
     return Info(nt=not ok, classes=["dump:" + ("ok" if ok else "failed")], sample=repr(case)[:200])
 
 
+SHARED_VALUES = [
+    lambda m: [[1, 2], {"a": (3, 4)}, {5, 6}],
+    lambda m: {"k": [m.A(), ()], "t": ((), ())},
+    lambda m: (),
+    lambda m: [{"__jsonclass__": ["verif_c15mod.A", []], "x": [1, {"__jsonclass__": ["decimal.Decimal", ["2"]]}]}],
+]
+
+
+def concurrent_cases(tier):
+    # dump only: load() works on the caller's dictionary (it pops and restores the '__jsonclass__'
+    # entry), so two threads loading the very same dict object can see each other's intermediate
+    # state on the unchanged tree; the statement does not quantify over schedules, nothing is claimed there
+    for i in range(len(SHARED_VALUES)):
+        yield {"value": i, "op": "dump", "occurrences": 1 if tier == "quick" else 2}
+
+
+def oracle_concurrent(case):
+    """dump / load have no side effect another call can observe: two threads converting the
+    same object under every single preemption at a distinct source line of jsonclass.py"""
+    from vlib import detsched as D
+    mod = ensure_module()
+    jc = JC()
+    files = [jc.__file__]
+    value = SHARED_VALUES[case["value"]](mod)
+    if case["op"] == "load" and case["value"] in (1,):
+        value = jc.dump(value)
+
+    def convert():
+        return jc.dump(value) if case["op"] == "dump" else jc.load(value)
+
+    def render(v):
+        return repr(snap_noid(v))
+
+    reference = render(convert())
+    before = snap(value)
+
+    def run_once(chooser):
+        results = []
+        sched = D.Scheduler(chooser, trace_files=files, max_steps=200000)
+
+        def main():
+            def work():
+                try:
+                    results.append(("ok", render(convert())))
+                except Exception as ex:
+                    results.append(("raised", "%s: %s" % (type(ex).__name__, ex)))
+            ts = [D.SimThread(target=work, name="t%d" % i) for i in range(2)]
+            for t in ts:
+                t.start()
+            for t in ts:
+                t.join()
+        sched.run(main)
+        return results
+
+    infos = []
+    n = 0
+    for pre, results, ch in D.single_preemption_sweep(run_once, max_points=800, occurrences=case["occurrences"], threads=2):
+        n += 1
+        for kind, r in results:
+            if kind != "ok" or r != reference:
+                fail("C15/concurrent-%s" % case["op"], "%s of a shared object gives %s %s when another thread converts the same object (one preemption at %r); alone it gives %s" % (
+                    case["op"], kind, r[:200], pre, reference[:200]))
+        if snap(value) != before:
+            fail("C15/%s-mutated-argument" % case["op"], "concurrent %s modified its argument" % case["op"])
+        infos.append(Info(nt=pre is not None, classes=["concurrent-" + case["op"]], key=(case["value"], case["op"], pre[:2] if pre else None),
+                          sample={"value": repr(value)[:120], "op": case["op"], "preempt-at": list(pre) if pre else None}))
+    infos.append(Info(classes=["concurrent-complete"], key=("cc", case["value"], case["op"], case["occurrences"]), sample={"schedules": n}))
+    return Info(multi=infos)
+
+
+def snap_noid(v):
+    if isinstance(v, (list, tuple)):
+        return (type(v).__name__, tuple(snap_noid(x) for x in v))
+    if isinstance(v, (set, frozenset)):
+        return (type(v).__name__, tuple(sorted(repr(snap_noid(x)) for x in v)))
+    if isinstance(v, dict):
+        return ("dict", tuple(sorted((repr(k), repr(snap_noid(x))) for k, x in v.items())))
+    if v is None or isinstance(v, (bool, int, float, str)):
+        return prim_token(v)
+    return ("object", type(v).__name__, snap_noid(getattr(v, "__dict__", None)) if hasattr(v, "__dict__") else None)
+
+
 SUBS = [
+    Sub("concurrent", oracle_concurrent, enumerate=concurrent_cases, shards={"quick": 8, "thorough": 8},
+        what="two threads dump/load the same shared object: every single preemption at a distinct source line (no observable global side effect)"),
     Sub("small", oracle_small, enumerate=small_cases, shards={"quick": 8, "thorough": 8},
         what="exhaustive small shapes (depth <= 2, width <= 2)"),
     Sub("random", oracle_random, strategy=lambda tier: plain_values(30 if tier == "quick" else 120),
@@ -434,4 +518,5 @@ CLAIM = {
     "text": "Generated-input search: every small shape (depth<=2, width<=2) is enumerated and large nestings are generated; dump output plainness, JSON-serialisability, type-exact round trip and an identity-aware deep snapshot of the argument before/after dump and load (success and injected failure) are checked.",
     "note": "Trusts the snapshot/comparison helpers in props/c15.py and Python's json.dumps as the backend stand-in.",
     "design_ref": "DESIGN.md section 4, C15",
+    "engine": "E1+E2+E4",
 }
